@@ -161,6 +161,12 @@ void __wrap_free(void *p)
     __real_free(p);
 }
 
+void shim_bail(int code)
+{
+    if (shim_armed) { shim_aborted = code; longjmp(shim_jb, code); }
+    __real_abort();
+}
+
 void __wrap_abort(void)
 {
     if (shim_armed) { shim_aborted = 1; longjmp(shim_jb, 1); }
